@@ -175,6 +175,81 @@ func (c *Ctx) runSignExt(r *Report, rule string, pkgs func(string) bool) {
 				}
 			}
 			if len(ctxs) == 0 {
+				// (e) the operand is x.Bits and earlier statements of the same list returned for some kinds of
+				// x.Kind (`if sv.Kind == ir.ScalarFloat { return ... }`): the kinds that are left reach this
+				// conversion; if both ScalarSint and ScalarUint are among them, a fixed signedness is wrong for one
+				if se, ok := ast.Unparen(x).(*ast.SelectorExpr); ok && se.Sel.Name == "Bits" {
+					subj := types.ExprString(se.X)
+					for i := len(stack) - 2; i >= 0; i-- {
+						var list []ast.Stmt
+						switch p := stack[i].(type) {
+						case *ast.BlockStmt:
+							list = p.List
+						case *ast.CaseClause:
+							list = p.Body
+						case *ast.FuncLit:
+							i = -1
+							continue
+						default:
+							continue
+						}
+						left := allKinds()
+						tested := false
+						for _, st := range list {
+							if st.Pos() <= nd.Pos() && nd.End() <= st.End() {
+								break
+							}
+							ifs, ok := st.(*ast.IfStmt)
+							if !ok || ifs.Else != nil || len(ifs.Body.List) == 0 {
+								continue
+							}
+							if _, isRet := ifs.Body.List[len(ifs.Body.List)-1].(*ast.ReturnStmt); !isRet {
+								continue
+							}
+							// the condition must be about subj.Kind
+							aboutSubj := false
+							ast.Inspect(ifs.Cond, func(k ast.Node) bool {
+								if ks, ok := k.(*ast.SelectorExpr); ok && ks.Sel.Name == "Kind" && types.ExprString(ks.X) == subj {
+									aboutSubj = true
+								}
+								return !aboutSubj
+							})
+							if !aboutSubj {
+								continue
+							}
+							if pos, exact := kindFacts(info, ifs.Cond); pos != nil && exact {
+								tested = true
+								for k := range pos {
+									delete(left, k)
+								}
+							}
+						}
+						if tested {
+							if left["ScalarSint"] && left["ScalarUint"] {
+								n++
+								cons := fn.id() + ":" + noSpace(types.ExprString(exprOf(nd)))
+								ord[cons]++
+								if ord[cons] > 1 {
+									cons += "#" + itoa(ord[cons])
+								}
+								ext := "zero-extends"
+								if nSigned {
+									ext = "sign-extends"
+								}
+								r.viol(rule, cons, c.pos(nd.Pos()), fn.id()+": "+types.ExprString(exprOf(nd))+" "+ext+" the bits of "+subj+", whose Kind at this point can still be ScalarSint or ScalarUint (earlier statements returned only for "+(func() string {
+									gone := kindSet{}
+									for k := range allKinds() {
+										if !left[k] {
+											gone[k] = true
+										}
+									}
+									return gone.String()
+								})()+"): values with the top bit set are widened wrongly for one of the two")
+							}
+							break
+						}
+					}
+				}
 				return true
 			}
 			n++
